@@ -56,9 +56,19 @@ def _own_sleep():
     def sleep(n):
         if sys._getframe(1).f_code.co_filename.startswith(MIDDLEWARE):
             SLEPT[0] += n
+            sched_sleep()
             return
         real(n)
     time.sleep = sleep
+
+
+def sched_sleep():
+    """under the cooperative scheduler a sleeping thread of the code under test gives the baton up"""
+    vnet = sys.modules.get(__package__ + ".vnet")
+    if vnet is not None:
+        s = vnet._my_sched()
+        if s is not None:
+            s.sleep_point()
 
 
 def _own_threading():
